@@ -126,7 +126,7 @@ func (g *gen) graph(depthLeft int, singleton bool, top bool) *Graph {
 			case !tail && depthLeft > 0 && ((s == spineS && i == spineI) || r.Chance(12, 100)):
 				n.Kind = "sub"
 				n.Sub = g.graph(depthLeft-1, single, false)
-			case !tail && r.Chance(8, 100):
+			case !tail && r.Chance(13, 100):
 				n.Kind = "tools"
 				nt := r.Range(1, 3)
 				if big {
@@ -208,6 +208,17 @@ func (engine) Generate(r *lib.Rng, tier string, i int) any {
 	}
 	c.Deadline = c.CancelBefore && r.Chance(40, 100)
 	perm := r.Perm(len(g.slots))
+	if r.Chance(25, 100) { // tool calls first: ToolsNode failures are otherwise rare
+		var ts, ns []int
+		for _, si := range perm {
+			if g.slots[si].t != nil {
+				ts = append(ts, si)
+			} else {
+				ns = append(ns, si)
+			}
+		}
+		perm = append(ts, ns...)
+	}
 	hasRerun, hasConv := false, false
 	for _, si := range perm {
 		if nf == 0 {
@@ -294,6 +305,10 @@ func (engine) Generate(r *lib.Rng, tier string, i int) any {
 	}
 	if (c.Par == "collect" || c.Par == "transform") && r.Chance(6, 100) {
 		c.InErr = g.errSpec()
+	}
+	// the step limit given as a call option: below / at / above what the top graph needs
+	if !c.G.Dag && !c.G.WF && r.Chance(8, 100) {
+		c.RtMax = r.Range(1, len(c.G.Stages)+2)
 	}
 	return c
 }
